@@ -45,6 +45,7 @@ type World struct {
 	// PopParts: which parts of the Merged relation populate() checks on the merges
 	// it performs to give a protocol driver merged segments to work on
 	PopParts MergeParts
+	lastK    int // write callbacks of the last complete merge
 }
 
 var chunkModes = []uint32{1, 2, 3, 5, 7, 64, 1024, 1025, 1026}
@@ -54,8 +55,8 @@ var mergeBufs = []int{16, 64, 256, 4096, 1 << 20, 1, 3, 7, 0}
 // newWorldBadSyn is newWorld for the drivers whose oracle is "the same answer as
 // alone", errors included (C11, C20): one synonym world in six contains a
 // zero-length synonym, so that loading its thesaurus fails.
-func newWorldBadSyn(r *RunCtx, wantSyn bool) *World {
-	w := newWorld(r, wantSyn, false)
+func newWorldBadSyn(r *RunCtx, wantSyn, wantVec bool) *World {
+	w := newWorld(r, wantSyn, wantVec)
 	if wantSyn && r.ch.Prob(1, 6, "cfg.badsyn") {
 		w.Cfg.BadSyn = true
 		w.XOpts.ThesErrOK = true
